@@ -369,11 +369,16 @@ def check_unregister_slots(rep, db, f, inst):
             def is_find(t):
                 return (isinstance(t, tuple) and t[:1] == ("ucall",) and q.short(t[2]) == "find" and len(t[3]) >= 3 and q.mentions(t[3][2], lambda x: x == key or (isinstance(x, tuple) and x[:2] == ("var", "P") and x[2] == key[1])) and
                         all(q.mentions(a, lambda x: x == ("fld", THIS_OBJ, "callback_unique_keys")) for a in t[3][:2]))
-            via_it = [strip_casts(e.a[1]) for e in p.events if e.kind == "STORE" and e.b == C(0) and isinstance(e.a, tuple) and e.a[:1] == ("deref",) and is_find(strip_casts(e.a[1]))]
+            conds = q.conds_before(p, len(p.events))
+
+            def points_at_key(P):
+                # a position in the key table: the result of std::find for the key, or a pointer whose pointee was compared equal to it
+                return is_find(P) or any(c[0] == "cmp" and c[1] == "==" and {c[2], c[3]} == {("rd", ("deref", P)), key} for c in conds)
+            via_it = [strip_casts(e.a[1]) for e in p.events if e.kind == "STORE" and e.b == C(0) and isinstance(e.a, tuple) and e.a[:1] == ("deref",) and points_at_key(strip_casts(e.a[1]))]
             if len(via_it) == 1:
                 F = via_it[0]
-                dist_ok = q.mentions(cs[0], lambda x: isinstance(x, tuple) and x[:1] in (("ptrdiff",), ("bin",), ("lin",)) and q.mentions(x, lambda y: y == F))
-                conds = q.conds_before(p, len(p.events))
+                dist_ok = q.mentions(cs[0], lambda x: isinstance(x, tuple) and x[:1] in (("ptrdiff",), ("bin",), ("lin",)) and q.mentions(x, lambda y: y == F)) and \
+                    q.mentions(cs[0], lambda x: x == ("fld", THIS_OBJ, "callback_unique_keys"))
                 found_ok = any(q.mentions(c, lambda x: x == F) for c in conds)
                 if dist_ok and found_ok:
                     continue
